@@ -64,8 +64,53 @@ fn run_v1(v: &Value) -> Value {
     let trace_json = |t: &DebugTracker| -> Value {
         Value::Array(t.host_call_trace.iter().map(|(_, c)| json!([c.host_function.to_string(), c.energy_used.energy])).collect())
     };
+    // the chain's side of interrupts: answer each interrupt with the next scripted response and resume
+    let responses = v["responses"].as_array().cloned().unwrap_or_default();
+    let mut next_response = 0usize;
+    let mut interrupts: Vec<Value> = Vec::new();
+    let mut res: Result<ReceiveResult<_, DebugTracker>, String> = res.map_err(|e| e.to_string());
+    loop {
+        match res {
+            Ok(ReceiveResult::Interrupt { remaining_energy, state_changed, logs, config, interrupt, trace }) if next_response < responses.len() => {
+                let r = &responses[next_response];
+                next_response += 1;
+                interrupts.push(json!({"state_changed": state_changed, "logs": logs.iterate().count(), "trace": trace_json(&trace)}));
+                let _ = interrupt;
+                let updated = r["state_updated"].as_bool().unwrap_or(false);
+                let mut fresh = ms.make_fresh_generation(&mut store);
+                {
+                    let inner = fresh.get_inner(&mut store);
+                    let mut t = inner.lock();
+                    for op in r["ops"].as_array().cloned().unwrap_or_default() {
+                        let k = bytes_of(&op[1]);
+                        if op[0] == "put" {
+                            let _ = t.insert(&mut store, &k, bytes_of(&op[2]));
+                        } else {
+                            let _ = t.delete(&mut store, &k);
+                        }
+                    }
+                }
+                if updated {
+                    ms = fresh;
+                } else {
+                    drop(fresh);
+                }
+                let response = match r["kind"].as_str().unwrap_or("success") {
+                    "success" => v1::InvokeResponse::Success { new_balance: Amount::from_micro_ccd(r["new_balance"].as_u64().unwrap_or(4242)), data: r["data"].as_str().map(|h| hex::decode(h).unwrap_or_default().into()) },
+                    "reject" => v1::InvokeResponse::Failure { kind: v1::InvokeFailure::ContractReject { code: -7, data: hex::decode(r["data"].as_str().unwrap_or("")).unwrap_or_default().into() } },
+                    "no_account" => v1::InvokeResponse::Failure { kind: v1::InvokeFailure::NonExistentAccount },
+                    _ => v1::InvokeResponse::Failure { kind: v1::InvokeFailure::InsufficientAmount },
+                };
+                res = v1::resume_receive::<_, DebugTracker>(config, response, remaining_energy, &mut ms, updated, MemStore::default()).map_err(|e| e.to_string());
+            }
+            other => {
+                res = other;
+                break;
+            }
+        }
+    }
     let mut out = match res {
-        Err(e) => json!({"outcome": "invalid_module", "error": e.to_string()}),
+        Err(e) => json!({"outcome": "invalid_module", "error": e}),
         Ok(ReceiveResult::Success { logs, state_changed, return_value, remaining_energy, trace }) => json!({
             "outcome": "success", "rv": hex::encode(&return_value), "logs": logs.iterate().map(hex::encode).collect::<Vec<_>>(),
             "state_changed": state_changed, "remaining": remaining_energy.energy, "trace": trace_json(&trace), "memory_alloc": trace.memory_alloc.energy, "operation": trace.operation.energy}),
@@ -93,7 +138,9 @@ fn run_v1(v: &Value) -> Value {
         Ok(ReceiveResult::Trap { error, remaining_energy, trace }) => json!({"outcome": "trap", "error": format!("{:#}", error), "remaining": remaining_energy.energy, "trace": trace_json(&trace), "memory_alloc": trace.memory_alloc.energy}),
         Ok(ReceiveResult::OutOfEnergy { trace }) => json!({"outcome": "out_of_energy", "remaining": 0, "trace": trace_json(&trace)}),
     };
+    out["interrupts"] = Value::Array(interrupts);
     // resulting state as the chain would see it
+    let inner = ms.get_inner(&mut store);
     let mut t = inner.lock().clone();
     let kv = iterate_trie(&mut t, &mut MemStore::default(), &[]);
     out["state"] = Value::Array(kv.iter().map(|(k, x)| json!([bytes_json(k), bytes_json(x)])).collect());
